@@ -228,7 +228,7 @@ class AbsEval(ConstEval):
                 raise AbsRaise("AttributeError", f"{t or 'value'} {base!r} has no attribute {e.attr}")
             if base is None:
                 raise AbsRaise("AttributeError", f"None has no attribute {e.attr}")
-            if isinstance(base, Opaque) and base.what == "external math":
+            if isinstance(base, Opaque) and base.what in ("external math", "external calendar"):
                 return super().eval(e, env, mod)
             if isinstance(base, Opaque) and (base.what.startswith("external") or "_LOGGER" in base.what or "getLogger" in base.what):
                 return Opaque(f"external {e.attr}")
@@ -474,6 +474,10 @@ class AbsEval(ConstEval):
             fv = self.eval(e.func, env, mod) if isinstance(e.func, (ast.Name, ast.Attribute)) else None
         except (NotConstant, AbsRaise):
             fv = None
+        br = self.bound_regex_of(fv, mod)
+        if br is not None and not e.keywords:
+            # a bound method of a compiled pattern kept under a name (`_match = _pattern.match`)
+            return self.regex_call(br[0], br[1], self.eval_args(e, env, mod))
         if isinstance(fv, Opaque) and fv.what.startswith("class ") and "." in fv.what[6:]:
             cm, cn = fv.what[6:].split(".", 1)
             if (cm, cn) in self.M.classes:
@@ -545,6 +549,18 @@ class AbsEval(ConstEval):
             return p if isinstance(p, str) else None
         return None
 
+    def bound_regex_of(self, v, mod):
+        """(pattern, method) of a name bound to `<compiled pattern>.match|fullmatch|search`"""
+        if isinstance(v, Opaque) and isinstance(v.node, (ast.Assign, ast.AnnAssign)) and isinstance(v.node.value, ast.Attribute) and v.node.value.attr in ("match", "fullmatch", "search"):
+            try:
+                base = self.eval(v.node.value.value, {}, v.mod or mod)
+            except (NotConstant, AbsRaise, SymbolicBranch):
+                return None
+            pat = self.regex_of(base, v.mod or mod)
+            if pat is not None:
+                return pat, v.node.value.attr
+        return None
+
     def regex_call(self, pattern, method, args):
         """Python's re applied to a constant pattern of the program and a concrete string: the match as an abstract object"""
         import re
@@ -613,6 +629,12 @@ class AbsEval(ConstEval):
             raise AbsRaise("AttributeError", args[1])
         if name == "getattr" and len(args) >= 2 and isinstance(args[1], str) and isinstance(a0, (str, int, float, bytes, tuple, list, dict, type(None), bool)):
             if not hasattr(a0, args[1]):
+                if len(args) == 3:
+                    return args[2]
+                raise AbsRaise("AttributeError", args[1])
+        if name == "getattr" and len(args) >= 2 and isinstance(args[1], str) and isinstance(a0, Res) and pytype_of(a0) in ("int", "str", "float"):
+            # a symbolic number / text: only the attributes of its Python type exist
+            if not hasattr({"int": int, "str": str, "float": float}[pytype_of(a0)], args[1]):
                 if len(args) == 3:
                     return args[2]
                 raise AbsRaise("AttributeError", args[1])
